@@ -1,73 +1,204 @@
 /-
-C04 — init/convert implement the canonical map Z → Z/m (PARTIAL delivery, see the builder's report).
+C04 — init/convert implement the canonical map Z → Z/m.
 
-Theorems about the model of `Modular<Storage_t,Compute_t>::init` from machine-integer sources wider
-than the storage type (modular-integral.inl:27-50), for every instantiated configuration, every
-modulus up to `maxCardinality()` and every value of the source type — except, for signed sources, the
-minimum of the source type, where the code computes `-y` in the signed type: that case is a genuine
-defect of /repo (`init_signed_wide_counterexample`, known finding C04-init-signed-min).
+Theorems about the model (`Model/ModRing.lean`, `ICfg.initInt`, tied to /repo by the correspondence of
+`checks/c04.py`) of `Modular<Storage_t,Compute_t>::init` from **every machine-integer source type**
+(signed/unsigned 8/16/32/64 bits) for every instantiated configuration, every modulus up to
+`maxCardinality()` and **every value of the source type, the minimum of a signed type included**
+(the repaired code negates in the unsigned type, fixes/C04_2.patch).  The other rings' init overloads,
+convert and the floating/Integer sources are tied to the exact specification by correspondence.
 -/
 import GivaroModel.Lemmas.ModRingFloat
 namespace Givaro.Props.C04
 open Givaro.Model.ModRing Givaro.Spec.ModRing
 
-/-- init from an unsigned source wider than the storage: `Caster<Element>(y % Source(_p))` -/
-theorem init_unsigned_wide_exact (k : ICfg) (hv : k.valid) (w : Nat) (hw : w = 16 ∨ w = 32 ∨ w = 64) (hws : w > k.s)
-    (p y : Int) (hp : 2 ≤ p) (hm : p ≤ k.maxCard) (hy : 0 ≤ y ∧ y < (2 : Int) ^ w) :
-    k.initInt w false p y = canonU p y := by
-  have ok := iok_of_valid k hv p hp hm
-  have hpw : ICfg.toSrc w false p = p := by
-    obtain ⟨s, sg, c⟩ := k
-    simp only [ICfg.valid] at hv
-    rcases hv with ⟨h1 | h1 | h1 | h1, h2 | h2⟩ <;> subst h1 <;> subst h2 <;> cases sg <;>
-      rcases hw with h | h | h <;> subst h <;> simp only [ICfg.maxCard] at hm <;> norm_num at hm hws <;>
-      simp only [ICfg.toSrc, wrapUw] <;> norm_num <;> (try omega)
-  unfold ICfg.initInt canonU
-  rw [if_pos hws]
-  simp only [Bool.false_eq_true, if_false]
-  rw [hpw, Int.tmod_eq_emod_of_nonneg hy.1]
-  exact ok.toE_id _ (Int.emod_nonneg _ (by omega)) (Int.le_of_lt (Int.emod_lt_of_pos _ (by omega)))
-example : (ICfg.mk 32 false 64).initInt 64 false 4294967295 18446744073709551615 = canonU 4294967295 18446744073709551615 := by decide
+/-- source widths -/
+def SrcW (w : Nat) : Prop := w = 8 ∨ w = 16 ∨ w = 32 ∨ w = 64
+/-- `y` is a value of the source type -/
+def InSrc (w : Nat) (ss : Bool) (y : Int) : Prop :=
+  if ss then -((2 : Int) ^ (w - 1)) ≤ y ∧ y < (2 : Int) ^ (w - 1) else 0 ≤ y ∧ y < (2 : Int) ^ w
 
-/-- init from a signed source wider than the storage, every value except the minimum of the source type.
-    Full statement (false, see the counterexample): the same for `-2^(w-1) ≤ y`. -/
-theorem init_signed_wide_partial (k : ICfg) (hv : k.valid) (w : Nat) (hw : w = 16 ∨ w = 32 ∨ w = 64) (hws : w > k.s)
-    (p y : Int) (hp : 2 ≤ p) (hm : p ≤ k.maxCard) (hy : -((2 : Int) ^ (w - 1)) < y ∧ y < (2 : Int) ^ (w - 1)) :
-    k.initInt w true p y = canonU p y := by
+/-- negin on a canonical residue is the residue of the negation -/
+theorem negin_exact (k : ICfg) (p x : Int) (ok : IOk k p) (hp : 2 ≤ p) (z : Int) (hx : x = z % p) :
+    k.negin p x = (-z) % p := by
+  have h0 := Int.emod_nonneg z (by omega : p ≠ 0)
+  have h1 := Int.emod_lt_of_pos z (by omega : 0 < p)
+  rw [neg_emod_eq z p (by omega), ← hx]
+  unfold ICfg.negin
+  split
+  · rfl
+  · rw [ok.toE_id p (by omega) (by omega), ok.arE_id _ (by omega) (by omega), ok.toE_id _ (by omega) (by omega)]
+
+/-- init from a source wider than the storage type -/
+theorem init_wide_exact (k : ICfg) (hv : k.valid) (w : Nat) (hw : SrcW w) (hws : w > k.s) (ss : Bool)
+    (p y : Int) (hp : 2 ≤ p) (hm : p ≤ k.maxCard) (hy : InSrc w ss y) :
+    k.initInt w ss p y = canonU p y := by
   have ok := iok_of_valid k hv p hp hm
-  have hpw : ICfg.toSrc w true p = p ∧ (y < 0 → ICfg.arSrc w true (-y) = -y) := by
+  -- literal facts about the source type
+  have hsrc : wrapUw w p = p ∧ (0 ≤ y → wrapUw w y = y)
+      ∧ (ss = true → y < 0 → wrapUw w (ICfg.arUSrc w (0 - wrapUw w y)) = -y) := by
     obtain ⟨s, sg, c⟩ := k
     simp only [ICfg.valid] at hv
+    unfold InSrc at hy
     rcases hv with ⟨h1 | h1 | h1 | h1, h2 | h2⟩ <;> subst h1 <;> subst h2 <;> cases sg <;>
-      rcases hw with h | h | h <;> subst h <;> simp only [ICfg.maxCard] at hm <;> norm_num at hm hy hws <;>
-      simp only [ICfg.toSrc, ICfg.arSrc, wrapSw] <;> norm_num <;> (try omega)
+      rcases hw with h | h | h | h <;> subst h <;> cases ss <;>
+      simp only [ICfg.maxCard] at hm <;> norm_num at hm hy hws <;>
+      simp only [ICfg.arUSrc, wrapUw, wrapSw] <;> norm_num <;> (try omega)
+  obtain ⟨hpw, hy0, hyn⟩ := hsrc
   unfold ICfg.initInt canonU
   rw [if_pos hws]
-  simp only [if_true]
-  rw [hpw.1]
-  by_cases hneg : y < 0
-  · rw [if_pos hneg, if_pos hneg, hpw.2 hneg, Int.tmod_eq_emod_of_nonneg (by omega)]
-    have h0 := Int.emod_nonneg (-y) (by omega : p ≠ 0)
-    have h1 := Int.emod_lt_of_pos (-y) (by omega : 0 < p)
-    rw [ok.toE_id _ h0 (by omega)]
-    have e := neg_emod_eq (-y) p (by omega)
-    rw [Int.neg_neg] at e
-    rw [e]
-    unfold ICfg.negin
-    split
-    · rfl
-    · rw [ok.toE_id p (by omega) (by omega), ok.arE_id _ (by omega) (by omega), ok.toE_id _ (by omega) (by omega)]
-  · rw [if_neg hneg, if_neg hneg, Int.tmod_eq_emod_of_nonneg (by omega)]
+  cases ss
+  · -- unsigned source
+    simp only [Bool.false_eq_true, if_false, ICfg.toSrc]
+    have hy' : 0 ≤ y := by unfold InSrc at hy; simp at hy; exact hy.1
+    rw [hpw, Int.tmod_eq_emod_of_nonneg hy']
     exact ok.toE_id _ (Int.emod_nonneg _ (by omega)) (Int.le_of_lt (Int.emod_lt_of_pos _ (by omega)))
-example : (ICfg.mk 32 true 32).initInt 64 true 101 (-9223372036854775807) = canonU 101 (-9223372036854775807) := by decide
+  · simp only [if_true]
+    rw [hpw]
+    by_cases hneg : y < 0
+    · rw [if_pos hneg, if_pos hneg, hyn rfl hneg, Int.tmod_eq_emod_of_nonneg (by omega)]
+      have h0 := Int.emod_nonneg (-y) (by omega : p ≠ 0)
+      have h1 := Int.emod_lt_of_pos (-y) (by omega : 0 < p)
+      rw [ok.toE_id _ h0 (by omega), negin_exact k p _ ok hp (-y) rfl, Int.neg_neg]
+    · rw [if_neg hneg, if_neg hneg, hy0 (by omega), Int.tmod_eq_emod_of_nonneg (by omega)]
+      exact ok.toE_id _ (Int.emod_nonneg _ (by omega)) (Int.le_of_lt (Int.emod_lt_of_pos _ (by omega)))
+example : SrcW 64 ∧ InSrc 64 true (-9223372036854775808) ∧ (ICfg.mk 32 true 32).valid := by
+  refine ⟨by unfold SrcW; decide, by unfold InSrc; decide, by decide⟩
+/-- the point the unrepaired code got wrong: `Modular<int32_t>(101).init(e, INT64_MIN)` -/
+example : (ICfg.mk 32 true 32).initInt 64 true 101 (-9223372036854775808) = 11 := by decide
 
-/-- the excluded point is a real failure of the code: `Modular<int32_t>(101).init(e, INT64_MIN)` gives 191,
-    not even a canonical element (the residue is 11) -/
-theorem init_signed_wide_counterexample :
-    ¬ (∀ (k : ICfg) (w : Nat) (p y : Int), k.valid → w = 64 → w > k.s → 2 ≤ p → p ≤ k.maxCard →
-        -((2 : Int) ^ (w - 1)) ≤ y ∧ y < (2 : Int) ^ (w - 1) → k.initInt w true p y = canonU p y) := by
-  intro h
-  have := h ⟨32, true, 32⟩ 64 101 (-9223372036854775808) (by decide) rfl (by decide) (by decide) (by decide) (by decide)
-  revert this; decide
+/-- reduce(x, y) for any value `y` of the storage type (used by the small-source overloads) -/
+theorem reduce_exact (k : ICfg) (hv : k.valid) (p y : Int) (hp : 2 ≤ p) (hm : p ≤ k.maxCard)
+    (hy : k.toE y = y) : k.reduce p y = canonU p y := by
+  have ok := iok_of_valid k hv p hp hm
+  have hneg : k.sg = true → ∀ x, -p ≤ x → x ≤ p → k.toE x = x := by
+    intro hsg x hx0 hx1
+    obtain ⟨s, sg, c⟩ := k
+    simp only [ICfg.valid] at hv
+    simp only at hsg; subst hsg
+    rcases hv with ⟨h1 | h1 | h1 | h1, h2 | h2⟩ <;> subst h1 <;> subst h2 <;>
+      simp only [ICfg.maxCard] at hm <;> norm_num at hm <;>
+      simp only [ICfg.toE, wrapSw] <;> norm_num <;> omega
+  unfold ICfg.reduce canonU
+  obtain ⟨hc, h0, h1, h2⟩ := tmod_cases y p (by omega)
+  have ht : Int.tmod y p < p := by rcases hc with h | h <;> omega
+  split
+  · next hsg =>
+    rw [ok.toE_id p (by omega) (by omega)]
+    simp only
+    rw [hneg hsg _ (by omega) (by omega)]
+    have hf := tmod_fix y p (by omega)
+    split
+    · rw [if_pos (by assumption)] at hf
+      rw [hf]; exact hneg hsg _ (by omega) (by omega)
+    · rw [if_neg (by assumption)] at hf
+      exact hf
+  · next hsg =>
+    have hy0 : 0 ≤ y := by
+      obtain ⟨s, sg, c⟩ := k
+      cases sg
+      · simp only [ICfg.toE, Bool.false_eq_true, if_false, wrapUw] at hy
+        rw [← hy]; exact Int.emod_nonneg _ (by positivity)
+      · exact absurd rfl hsg
+    rw [Int.tmod_eq_emod_of_nonneg hy0]
+    exact ok.toE_id _ (Int.emod_nonneg _ (by omega)) (Int.le_of_lt (Int.emod_lt_of_pos _ (by omega)))
+example : (ICfg.mk 8 true 8).reduce 13 (-128) = canonU 13 (-128) := by decide
+
+/-- init from a source not wider than the storage type (signed or unsigned source, signed or unsigned
+    storage: the four bodies of `_init_small_s` / `_init_small_u`) -/
+theorem init_small_exact (k : ICfg) (hv : k.valid) (w : Nat) (hw : SrcW w) (hws : ¬ w > k.s) (ss : Bool)
+    (p y : Int) (hp : 2 ≤ p) (hm : p ≤ k.maxCard) (hy : InSrc w ss y) :
+    k.initInt w ss p y = canonU p y := by
+  have ok := iok_of_valid k hv p hp hm
+  -- literal facts relating the source type to the storage type
+  have hsrc : (k.sg = true → ss = true → k.toE y = y)
+      ∧ (ss = false → k.arU y = y ∧ 0 ≤ y)
+      ∧ (k.sg = false → 0 ≤ y → k.toE y = y)
+      ∧ (k.sg = false → y < 0 → k.toE (k.arE (0 - k.toE y)) = -y) := by
+    obtain ⟨s, sg, c⟩ := k
+    simp only [ICfg.valid] at hv
+    unfold InSrc at hy
+    rcases hv with ⟨h1 | h1 | h1 | h1, h2 | h2⟩ <;> subst h1 <;> subst h2 <;> cases sg <;>
+      rcases hw with h | h | h | h <;> subst h <;> cases ss <;>
+      norm_num at hy hws <;>
+      simp only [ICfg.toE, ICfg.arU, ICfg.arE, wrapUw, wrapSw] <;> norm_num <;> (try omega)
+  obtain ⟨hA, hB, hC, hD⟩ := hsrc
+  unfold ICfg.initInt
+  rw [if_neg hws]
+  by_cases hsg : k.sg = true
+  · rw [if_pos hsg]
+    cases ss
+    · simp only [Bool.false_eq_true, if_false]
+      obtain ⟨h1, h2⟩ := hB rfl
+      unfold canonU
+      rw [h1, ok.arU_id p (by omega) (by omega), Int.tmod_eq_emod_of_nonneg h2]
+      exact ok.toE_id _ (Int.emod_nonneg _ (by omega)) (Int.le_of_lt (Int.emod_lt_of_pos _ (by omega)))
+    · simp only [if_true]
+      rw [hA hsg rfl]
+      exact reduce_exact k hv p y hp hm (hA hsg rfl)
+  · have hsf : k.sg = false := by cases h : k.sg <;> simp_all
+    rw [if_neg hsg]
+    simp only
+    by_cases hneg : y < 0
+    · rw [if_pos hneg, if_pos hneg, hD hsf hneg]
+      have hny : k.toE (-y) = -y := by
+        obtain ⟨s, sg, c⟩ := k
+        simp only at hsf; subst hsf
+        have := hD rfl hneg
+        simp only [ICfg.toE, Bool.false_eq_true, if_false, wrapUw] at this ⊢
+        rw [← this]; exact Int.emod_emod_of_dvd _ (Int.dvd_refl _)
+      rw [reduce_exact k hv p (-y) hp hm hny]
+      unfold canonU
+      rw [negin_exact k p _ ok hp (-y) rfl, Int.neg_neg]
+    · rw [if_neg hneg, if_neg hneg, hC hsf (by omega)]
+      have : k.toE y = y := hC hsf (by omega)
+      exact reduce_exact k hv p y hp hm this
+example : SrcW 32 ∧ InSrc 32 false 4294967295 ∧ ¬ (32 > (ICfg.mk 32 true 64).s) := by
+  refine ⟨by unfold SrcW; decide, by unfold InSrc; decide, by decide⟩
+/-- the points the unrepaired code got wrong: unsigned source ≥ 2^(N-1) into signed storage; INT32_MIN into uint64_t -/
+example : (ICfg.mk 32 true 32).initInt 32 false 3 2147483648 = 2 := by decide
+example : (ICfg.mk 64 false 64).initInt 32 true 101 (-2147483648) = canonU 101 (-2147483648) := by decide
+
+/-- **init_canonical** (integral family, machine-integer sources): the canonical image of every value
+    of every source type, for every admissible modulus -/
+theorem init_canonical (k : ICfg) (hv : k.valid) (w : Nat) (hw : SrcW w) (ss : Bool)
+    (p y : Int) (hp : 2 ≤ p) (hm : p ≤ k.maxCard) (hy : InSrc w ss y) :
+    k.initInt w ss p y = canonU p y ∧ isCanonU p (k.initInt w ss p y) := by
+  have e : k.initInt w ss p y = canonU p y := by
+    by_cases hws : w > k.s
+    · exact init_wide_exact k hv w hw hws ss p y hp hm hy
+    · exact init_small_exact k hv w hw hws ss p y hp hm hy
+  refine ⟨e, ?_⟩
+  rw [e]; unfold isCanonU canonU
+  exact ⟨Int.emod_nonneg _ (by omega), Int.emod_lt_of_pos _ (by omega)⟩
+
+/-- convert is the identity on the representation (`Caster<T>(a)`), so `init (convert e) = e` for every
+    canonical element whose value the source type holds -/
+theorem init_convert (k : ICfg) (hv : k.valid) (w : Nat) (hw : SrcW w) (ss : Bool)
+    (p e : Int) (hp : 2 ≤ p) (hm : p ≤ k.maxCard) (he : isCanonU p e) (hy : InSrc w ss e) :
+    k.initInt w ss p e = e := by
+  rw [(init_canonical k hv w hw ss p e hp hm hy).1]
+  exact Int.emod_eq_of_lt he.1 he.2
+
+/-- `convert (init x) ≡ x (mod p)` -/
+theorem convert_init (k : ICfg) (hv : k.valid) (w : Nat) (hw : SrcW w) (ss : Bool)
+    (p y : Int) (hp : 2 ≤ p) (hm : p ≤ k.maxCard) (hy : InSrc w ss y) :
+    (k.initInt w ss p y - y) % p = 0 := by
+  rw [(init_canonical k hv w hw ss p y hp hm hy).1]
+  unfold canonU
+  have h := Int.emod_add_mul_ediv y p
+  have : y % p - y = p * (-(y / p)) := by linarith
+  rw [this]; exact Int.mul_emod_right _ _
+
+/-- zero, one, mOne as computed by the constructor are the images of 0, 1, -1 -/
+theorem constants_are_images (k : ICfg) (hv : k.valid) (p : Int) (hp : 2 ≤ p) (hm : p ≤ k.maxCard) :
+    k.zero = canonU p 0 ∧ k.one = canonU p 1 ∧ k.mOne p = canonU p (-1) := by
+  have ok := iok_of_valid k hv p hp hm
+  unfold ICfg.zero ICfg.one ICfg.mOne canonU
+  rw [ok.toE_id 0 (by omega) (by omega), ok.toE_id 1 (by omega) (by omega),
+    ok.arU_id _ (by omega) (by omega), ok.toE_id _ (by omega) (by omega)]
+  refine ⟨by simp, (Int.emod_eq_of_lt (by omega) (by omega)).symm, ?_⟩
+  exact (emod_unique (by omega) (by omega) (-1) (by ring)).symm
+example : (ICfg.mk 8 false 16).mOne 255 = 254 := by decide
 
 end Givaro.Props.C04
